@@ -4,16 +4,25 @@
 use std::panic;
 use vh::{compat::AssumptionViolated, inp::Inp, registry};
 
-fn unhex(s: &str) -> Vec<u8> {
-    let s = s.trim();
-    (0..s.len() / 2).map(|i| u8::from_str_radix(&s[2 * i..2 * i + 2], 16).unwrap()).collect()
+/// input = comma separated u64 words in hex
+fn unhex(s: &str) -> Vec<u64> {
+    s.trim().split(',').filter(|x| !x.is_empty()).map(|x| u64::from_str_radix(x.trim_start_matches("0x"), 16).unwrap()).collect()
 }
 
 fn main() {
     let a: Vec<String> = std::env::args().collect();
     if a.len() < 3 {
-        eprintln!("usage: replay <scenario> <hexbytes>");
+        eprintln!("usage: replay <scenario> <w0,w1,..(hex u64)> [tries seed] | replay --len <scenario>");
         std::process::exit(5);
+    }
+    if a[1] == "--len" {
+        match registry::lookup(&a[2]) {
+            Some((len, _)) => {
+                println!("{}", len);
+                std::process::exit(0)
+            }
+            None => std::process::exit(5),
+        }
     }
     let Some((len, f)) = registry::lookup(&a[1]) else {
         eprintln!("unknown scenario {}", a[1]);
@@ -40,7 +49,12 @@ fn main() {
             let k = 1 + (next() % 3) as usize;
             for _ in 0..k {
                 let pos = (next() % len as u64) as usize;
-                b[pos] = (next() & 0xff) as u8;
+                b[pos] = match next() % 4 {
+                    0 => next(),
+                    1 => next() & 0xff,
+                    2 => b[pos] ^ (1 << (next() % 64)),
+                    _ => b[pos].wrapping_add(1),
+                };
             }
         }
         let (code, msg) = run_once(&a[1], f, &b);
@@ -48,7 +62,7 @@ fn main() {
             first = Some((code, msg.clone()));
         }
         if code == 3 {
-            let hex: String = b.iter().map(|x| format!("{:02x}", x)).collect();
+            let hex: String = b.iter().map(|x| format!("{:x}", x)).collect::<Vec<_>>().join(",");
             println!("{}", msg.replacen('{', &format!("{{\"tries\":{},\"bytes\":\"{}\",", t, hex), 1));
             std::process::exit(3);
         }
@@ -58,7 +72,7 @@ fn main() {
     std::process::exit(code);
 }
 
-fn run_once(name: &str, f: registry::Scen, bytes: &[u8]) -> (i32, String) {
+fn run_once(name: &str, f: registry::Scen, bytes: &[u64]) -> (i32, String) {
     let r = panic::catch_unwind(|| {
         let mut i = Inp::new(bytes);
         let out = f(&mut i);
